@@ -42,7 +42,7 @@ func semTyped(err error) bool {
 	var pb *sem.ParseError[[]byte]
 	var ns *sem.ParseError[semNamedS]
 	var nb *sem.ParseError[semNamedB]
-	return errors.As(err, &ps) || errors.As(err, &pb) || errors.As(err, &ns) || errors.As(err, &nb)
+	return errors.As(err, &ps) || errors.As(err, &pb) || errors.As(err, &ns) || errors.As(err, &nb) || errTypeHas(err, "*sem.ParseError[")
 }
 
 type semEntry struct {
@@ -98,6 +98,12 @@ var semEntries = []semEntry{
 	{"Parse[named string]", true, true, func(s string) (sem.Ver, error) { return sem.Parse(semNamedS(s)) }, false},
 	{"ParseTag[named []byte]", false, true, func(s string) (sem.Ver, error) { return sem.ParseTag(semNamedB(s)) }, false},
 	{"DefaultParser[named string](RuleDisableTag)", true, false, func(s string) (sem.Ver, error) { return sem.DefaultParser(semNamedS(s), sem.RuleDisableTag) }, false},
+	// named types that print themselves differently from what they contain
+	{"Parse[string type with String()]", true, true, func(s string) (sem.Ver, error) { return sem.Parse(loudS(s)) }, false},
+	{"ParseVersion[string type with Error()]", true, false, func(s string) (sem.Ver, error) { return sem.ParseVersion(errS(s)) }, false},
+	{"ParseTag[string type with Format()]", false, true, func(s string) (sem.Ver, error) { return sem.ParseTag(fmtS(s)) }, false},
+	{"DefaultParser[[]byte type with trimming String()](0)", true, true, func(s string) (sem.Ver, error) { return sem.DefaultParser(trimB(s), 0) }, false},
+	{"Parse[[]byte type with hex String()]", true, true, func(s string) (sem.Ver, error) { return sem.Parse(hexB(s)) }, false},
 	{"Ver.UnmarshalText", true, true, func(s string) (sem.Ver, error) {
 		v := sem.Ver{Major: 9, Minor: 9, Patch: 9, PreRelease: "old", Build: "old"} // the receiver already holds another version
 		err := v.UnmarshalText([]byte(s))
@@ -652,6 +658,7 @@ func runC03(c *rt.Ctx) {
 		}
 	})
 	c.Require("decorated-valid-text", 800)
+	refillRun(c, c.Pick(40000, 400000), "sem")
 	coldStart(c, "C03", 14)
 
 	nVer := c.Pick(1000000, 10000000)
